@@ -66,6 +66,33 @@ def extra_variants(cls, args):
     return out
 
 
+def nudged(args, k):
+    """args with the k-th real-valued leaf (mod their number) changed by 1e-13 * (1 + |v|): far inside the zone where
+    the statement leaves equality open (< 1e-10); None if the recipe has no real leaf."""
+    leaves = []
+
+    def walk(o, path):
+        if isinstance(o, float) and o == o and abs(o) < 1e300:
+            leaves.append(path)
+        elif isinstance(o, dict):
+            for kk in sorted(o):
+                walk(o[kk], path + [kk])
+        elif isinstance(o, list):
+            for i, e in enumerate(o):
+                walk(e, path + [i])
+    walk(args, [])
+    if not leaves:
+        return None, None
+    path = leaves[k % len(leaves)]
+    out = copy.deepcopy(args)
+    tgt = out
+    for kk in path[:-1]:
+        tgt = tgt[kk]
+    v = tgt[path[-1]]
+    tgt[path[-1]] = v + 1e-13 * (1 + abs(v))
+    return out, "/".join(str(x) for x in path)
+
+
 MOTION = ([3.0, -2.0], 0.7)
 
 
@@ -155,6 +182,24 @@ def check_case(r, ctx):
                                 "x == %s copy but hashes differ (%s); args %s" % (tag, tag, K.canon(args)[:800]))
         for k, y in ys:
             hash(y)
+        # a value changed far below 1e-10: the statement leaves open whether the objects are equal, but IF they compare
+        # equal their hashes must agree (and the comparison must still be symmetric and consistent with !=)
+        nargs, where = nudged(args, r.get("nudge", 0))
+        if nargs is not None:
+            try:
+                z = K.construct(spec, nargs)
+            except Exception:
+                z = None    # e.g. an interval end moved past the other one
+            if z is not None:
+                e1, e2, n1, n2 = _cmp(x, z)
+                if e1 != e2:
+                    raise Violation("%s-asymmetric" % cls, "nudged %s: a==b is %r but b==a is %r" % (where, e1, e2))
+                if n1 == e1 or n2 == e2:
+                    raise Violation("%s-ne-inconsistent" % cls, "nudged %s: ==:%r/%r !=:%r/%r" % (where, e1, e2, n1, n2))
+                if e1 and hash(z) != hx:
+                    raise Violation("%s-hash-differs-nearly-equal" % cls, "x == x' (real leaf %s changed by 1e-13 "
+                                    "relative) but hash(x) != hash(x'); args %s" % (where, K.canon(args)[:600]))
+                ctx.label("nudged-equal" if e1 else "nudged-unequal")
         # equality and hash follow the object through a public mutation: x has been compared and hashed above (any
         # cached key is filled); x moved must equal a freshly built, never compared object moved the same way, and
         # must differ from the unmoved rebuild when the motion changed a public attribute
